@@ -326,6 +326,14 @@ func (e *EvalEnv) ident(name string) (Val, error) {
 			}
 		}
 	}
+	// address-taken local variable (lives in an Alloc): its current content
+	if e.Fr != nil {
+		if vals := e.Fr.Names["&"+name]; len(vals) > 0 {
+			if p, ok := e.Fr.Env[vals[len(vals)-1]].(PtrV); ok {
+				return e.X.Load(e.state(), p)
+			}
+		}
+	}
 	// package-level constant / variable
 	if e.Fn != nil && e.Fn.Pkg != nil {
 		if v, ok, err := e.pkgMember(e.Fn.Pkg, name); ok || err != nil {
